@@ -260,3 +260,6 @@ def sends(chk, repo):
     chk.ob("R30.3", C + "SyncGroup.start", "the frame is assembled after "
            "the allocation", bool(i1 and i2 and i1[0] < i2[0]), st,
            "allocate(), then assemble()")
+
+# added rules (appended to the explanation the evidence file carries)
+EXPLANATION += (" " + "Added during the build (DESIGN.md 4.31, second table): every path through SyncGroup.update_devices runs the devices' update().")
